@@ -3,6 +3,7 @@ CONSTANT R = 1
 CONSTANT P2Origin = FALSE
 CONSTANT Impl = "tertiary"
 CONSTANT M1Order = "n1_x_b2"
+CONSTANT Slice = FALSE
 INVARIANT TypeOK
 INVARIANT UndefinedIffDegenerate
 INVARIANT LatticeOctant
